@@ -10,8 +10,8 @@
    granularity is explored by the harness, not proved (props/C09.json). *)
 From Coq Require Import List NArith String Bool Arith.
 From GQL Require Import Exec.Syntax Exec.Coerce Exec.Exec Exec.Request.
-From GQL Require Import Total.Result Total.CollectBound Total.FragCycle Total.PlanWalk.
-From GQL Require Import Proofs.TotalCollect Proofs.TotalFragCycle Proofs.TotalWalk Proofs.TotalDethunk.
+From GQL Require Import Total.Result Total.CollectBound Total.FragCycle Total.PlanWalk Total.CoerceBound Total.RequestBound.
+From GQL Require Import Proofs.TotalCollect Proofs.TotalFragCycle Proofs.TotalWalk Proofs.TotalDethunk Proofs.TotalRequest.
 Import ListNotations.
 
 (* ---- termination of CollectFields, for every document: cyclic fragment
@@ -100,6 +100,21 @@ Theorem C09_request_fuel_irrelevant : forall fuel fuel' S D op inputs root or to
 Proof. intros; eapply request_fuel_mono; eauto. Qed.
 Print Assumptions C09_request_fuel_irrelevant.
 
+
+(* ---- the reference executor terminates on every request whose document passes
+        PlanQuery's check: for every schema, operation name, variable inputs, root
+        value and resolver / type oracle (no validity assumed).  The recursion is
+        directed by the document and the schema's type references, not by the
+        data, so no bound on the oracle's outcomes is needed.  The fuel bound is a
+        polynomial in document size and height, number of fragments, widths of the
+        schema's type references, depth of argument literals and of the inputs. ---- *)
+Theorem C09_request_total : forall S D op inputs root or tor,
+  fragment_cycle_through_field D = false ->
+  forall fuel, request_bound S D inputs <= fuel ->
+  request fuel S D op inputs root or tor <> RFuel.
+Proof. exact request_total. Qed.
+Print Assumptions C09_request_total.
+
 (* ---- non-vacuity ---- *)
 Definition c09_fld (id : N) (nm : string) (sub : list selection) : selection := SField id None nm [] [] sub.
 Definition c09_doc (sels : list selection) (frs : list fragment) : document :=
@@ -120,6 +135,12 @@ Example C09_nonvacuous :
       /\ (exists g v, collect (collect_bound D [SSpread 2 "F" []]) c09_schema D [] "Q" [SSpread 2 "F" []] [] [] = Some (g, v)
                       /\ map fst g = ["s"%string; "x"%string])
       /\ walk (plan_bound D) c09_schema D [] "Q" [[SSpread 2 "F" []]] = Some 2)
+  /\ (let D := c09_doc [SSpread 2 "F" []] [c09_F [c09_fld 25 "s" []; SSpread 27 "F" []; c09_fld 32 "x" [c09_fld 36 "s" []]]] in
+      match request (request_bound c09_schema D []) c09_schema D None [] (RObj 0 "root")
+                    (fun _ => Some (OVal (RObj 1 "Q"))) (fun _ => Some "Q"%string) with
+      | RDone (Some _) _ => True
+      | _ => False
+      end)
   /\ result_well_formed {| sh_parse_failed := true; sh_valid_failed := false; sh_has_data := true;
                            sh_nerrs := 1; sh_json_ok := true; sh_keys_ok := true |} = false
   /\ result_well_formed {| sh_parse_failed := false; sh_valid_failed := false; sh_has_data := false;
@@ -129,5 +150,5 @@ Proof.
   - split; [vm_compute; reflexivity|]. split.
     + eexists. eexists. split; vm_compute; reflexivity.
     + vm_compute. reflexivity.
-  - split; reflexivity.
+  - split; [vm_compute; exact I|]. split; reflexivity.
 Qed.
